@@ -105,5 +105,13 @@ func checkSpecs() map[string]CheckSpec {
 	}, Explanation: "RobustLineIntersector via LineIntersectsLine on integer-grid segment pairs: classification, endpoint copies and collinear overlaps against exact orientation-and-interval references.",
 		Assumptions: []string{"summary: bigxy.OrientationIndex = sign of the exact determinant (C10)", "cut: lineintersector.intersection (proper crossing point) returns an arbitrary point"},
 		Outside: []string{"accuracy of a computed proper-crossing point", "non-grid floats", "the non-robust strategy (harness HC12_NonRobust exists; not registered)"}})
+	c14 := func(f string) HarnessSpec {
+		return HarnessSpec{Func: f, Pkg: "xy", Domain: X, Covers: []string{"end"}}
+	}
+	add(CheckSpec{Property: "C14", Harnesses: []HarnessSpec{
+		c14("HC14_SignedArea"), c14("HC14_RingDirection"), c14("HC14_PointCentroid"), c14("HC14_LineCentroid"), c14("HC14_PolygonCentroid"), c14("HC14_PolygonWithHole"),
+	}, Explanation: "Signed area, ring direction and point/line/polygon centroids on integer-grid inputs against exact shoelace / mean references; equalities of rational functions by exact normalisation, sign facts by nlsat.",
+		Assumptions: []string{"summary: bigxy.OrientationIndex = sign of the exact determinant (C10)"},
+		Outside: []string{"to-within-rounding (claims are exact for SignedArea, ideal for centroids)", "polygons with holes, multi-polygons and the zero-area fallback", "rings with more vertices than the bound"}})
 	return m
 }
